@@ -455,6 +455,34 @@ pub fn scaling_histories(max_video: usize) -> Vec<(Cfg, Vec<Op>, String)> {
             out.push((cfg, ops, format!("large sample at {big_at}")));
         }
     }
+    // AAC frames whose ADTS frame length crosses every power of two up to the 13-bit maximum
+    for len in [120usize, 121, 248, 249, 504, 505, 1016, 1017, 2040, 2041, 4088, 4089, 4090, 6000, 8180] {
+        for fs in [true, false] {
+            let cfg = Cfg::basic(VCodec::H264, Some(ACodec::AacLc), fs);
+            let mut ops = vec![];
+            for i in 0..2usize {
+                let (d, _) = video_frame(VCodec::H264, i == 0, i == 0, i as u32 + 1, 5);
+                ops.push(Op::WV { pts: T(i as f64 * unit), data: Bytes::new(d), key: i == 0 });
+                ops.push(Op::WA { pts: T(i as f64 * unit), data: Bytes::new(audio_frame(ACodec::AacLc, i as u32 + (len % 3) as u32, if i == 1 { len } else { 9 }).0) });
+            }
+            out.push((cfg, ops, format!("AAC payload of {len} bytes")));
+        }
+    }
+    // one history per layout with more than 2^16 samples per track (16-bit counters, table
+    // entry counts, chunk bookkeeping)
+    for fs in [true, false] {
+        let n = 66_000usize;
+        let cfg = Cfg::basic(VCodec::Vp9, Some(ACodec::Opus), fs);
+        let mut ops = Vec::with_capacity(2 * n);
+        let vk = Bytes::new(video_frame(VCodec::Vp9, true, true, 1, 3).0);
+        let vd = Bytes::new(video_frame(VCodec::Vp9, false, false, 2, 2).0);
+        let au = Bytes::new(audio_frame(ACodec::Opus, 3, 3).0);
+        for i in 0..n {
+            ops.push(Op::WV { pts: T(i as f64 * unit), data: if i % 250 == 0 { vk.clone() } else { vd.clone() }, key: i % 250 == 0 });
+            ops.push(Op::WA { pts: T(i as f64 * unit), data: au.clone() });
+        }
+        out.push((cfg, ops, format!("{n} samples per track")));
+    }
     out
 }
 
